@@ -34,8 +34,10 @@ def _genome(case):
     chroms = {}
     for ci, nb in enumerate(case["blocks"]):
         s = []
-        for _ in range(nb):
+        for bi in range(nb):
             gc = rng.choice(case["gc_levels"])
+            if case.get("block_gc"):
+                gc = case["block_gc"][ci][bi]     # explicit layout (skewed-demand cases); rng.choice above keeps the stream aligned
             s.extend(rng.choice("GC") if rng.random() < gc else rng.choice("AT") for _ in range(W))
         s.extend(rng.choice("ACGT") for _ in range(case["tails"][ci]))
         for _ in range(case["n_runs"]):
@@ -106,15 +108,16 @@ def matching_case(case, ctx):
                 pass
             ctx.label("after_call_with_other_loci")
         df_in = df.copy()
+        err = None
+        m = m2 = None
         try:
             m = extract_matching_loci(df_in, fa, n_jobs=1, **kw)
-        except Exception as e:  # noqa: BLE001
-            ctx.label("exception_" + type(e).__name__)
-            raise Rejected() from e
-        require(df_in.equals(df), "loci-frame-modified", "the caller's loci DataFrame was changed")
-        m2 = None
-        if case.get("n_jobs2"):
-            m2 = sut(extract_matching_loci, df.copy(), fa, n_jobs=case["n_jobs2"], **kw)
+        except Exception as e:  # noqa: BLE001 - judged below, once the harness knows whether the input is one the code cannot bin
+            err = e
+        if err is None:
+            require(df_in.equals(df), "loci-frame-modified", "the caller's loci DataFrame was changed")
+            if case.get("n_jobs2"):
+                m2 = sut(extract_matching_loci, df.copy(), fa, n_jobs=case["n_jobs2"], **kw)
     finally:
         tmp.cleanup()
 
@@ -141,6 +144,20 @@ def matching_case(case, ctx):
             usable[gcbin(seq)] += 1
             n_usable += 1
     thr = None
+    if err is not None:
+        # the only refusals the statement leaves open: a GC bin one past the count arrays (bin widths such as 0.06 / 0.08 with a
+        # GC = 1.0 window; DESIGN 9, observations) and no input locus fitting its chromosome.  Decided from the generated genome,
+        # not from the exception; any other exception on a valid input is reported.
+        nb = int(1. / bw_w) + 1
+        bins = list(usable)
+        for c in (sorted(set(c for c, _, _ in loci)) if sel_chroms is None else sel_chroms):
+            for t in range(len(chroms[c]) // W):
+                seq = chroms[c][t * W:(t + 1) * W]
+                bins.append(gcbin(seq))
+        if (bins and max(bins) >= nb) or (use_bw and not valid_sums) or n_usable == 0:
+            ctx.label("exception_" + type(err).__name__)
+            raise Rejected() from err
+        raise SutRaised(err) from err
     if use_bw:
         if not valid_sums:
             raise Rejected()
@@ -223,6 +240,8 @@ def matching_case(case, ctx):
     ctx.nt(len(m) >= 1 and (spill or filtered_any))
     if spill:
         ctx.label("spill_over_needed")
+    if case.get("block_gc"):
+        ctx.label("skewed_demand_layout")
     if use_bw:
         ctx.label("bigwig", "out==in" if O == W else "out<in")
     if elig_hi.get(0, 0) and any(usable[b] > elig_hi[b] for b in usable):
@@ -253,6 +272,19 @@ def strategy(draw, max_loci=60):
             "max_n_perc": draw(st.sampled_from([0.0, 0.1, 0.1, 0.3, 0.5])), "bigwig": draw(st.booleans()),
             "beta": draw(st.sampled_from([0.5, 1.0, 0.25])), "sig_rate": draw(st.sampled_from([0.3, 1.0, 3.0])),
             "rs": draw(st.integers(0, 10 ** 6))}
+    if draw(st.integers(0, 3)) == 0:
+        # skewed demand: every input sits in a block of one extreme GC level (and masks it), eligible background only exists at
+        # levels further and further away - the unmatched inputs have to spill over many bins, upwards or downwards
+        ext, others = draw(st.sampled_from([(0.9, [0.1, 0.3, 0.5]), (0.1, [0.5, 0.7, 0.9]), (0.8, [0.2]), (1.0, [0.0, 0.4]), (0.7, [0.1, 0.2, 0.9])]))
+        layout = [[ext if draw(st.integers(0, 3)) == 0 else draw(st.sampled_from(others)) for _ in range(b)] for b in blocks]
+        layout[0][draw(st.integers(0, blocks[0] - 1))] = ext
+        spots = [(c, b) for c in range(nchr) for b in range(blocks[c]) if layout[c][b] == ext]
+        loci = []
+        for _ in range(draw(st.integers(3, 25))):
+            c, b = draw(st.sampled_from(spots))
+            off = draw(st.integers(0, W - 1))
+            loci.append([c, b * W + off, b * W + off + draw(st.integers(1, W - off))])
+        case["block_gc"], case["loci"] = layout, loci
     if draw(st.integers(0, 3)) == 0:
         case["chroms"] = sorted(draw(st.sets(st.integers(0, nchr - 1), min_size=1, max_size=nchr)))
     case["earlier_call_other_loci"] = draw(st.integers(0, 3)) == 0
